@@ -38,4 +38,41 @@ MUTANTS = [
                     else:
                         next_char = '\\\\' + escape""",
          note='an unknown escape leaks KeyError'),
+    # ---- C02
+    dict(id='c02-escape-peek-in-chunk', prop='C02', file='src/srctools/tokenizer.py',
+         old="""                # Escape text
+                escape = self._next_char()""",
+         new="""                # Escape text
+                if self._char_index + 1 < len(self._cur_chunk):
+                    escape = self._next_char()
+                else:
+                    self._next_char()
+                    escape = None""",
+         note='escaped character looked up only inside the current chunk'),
+    dict(id='c02-no-cr-escape-multiline', prop='C02', file='src/srctools/tokenizer.py',
+         old="""    if c not in '?/\\n'
+))""",
+         new="""    if c not in '?/\\n\\r'
+))""",
+         note='CR left raw in multiline mode'),
+    dict(id='c02-inv-table-tab', prop='C02', file='src/srctools/tokenizer.py',
+         old="""ESCAPE_RE = re.compile('|'.join(""",
+         new="""ESCAPES_INV['\\b'] = '\\\\d'
+ESCAPE_RE = re.compile('|'.join(""",
+         note='escape tables no longer mutually inverse (backspace written as \\d)'),
+    # ---- C01
+    dict(id='c01-leaf-name-unescaped', prop='C01', file='src/srctools/keyvalues.py',
+         old="""            file.write(f'{cur_indent}"{escape_text(self._real_name)}" "{escape_text(self._value)}"\\n')""",
+         new="""            file.write(f'{cur_indent}"{self._real_name}" "{escape_text(self._value)}"\\n')""",
+         note='leaf names written raw'),
+    dict(id='c01-parse-folds-name', prop='C01', file='src/srctools/keyvalues.py',
+         old="""                keyvalue.real_name = sys.intern(token_value)""",
+         new="""                keyvalue.real_name = sys.intern(token_value.lower())""",
+         note='parser loses the original casing of names'),
+    dict(id='c01-indent-in-value', prop='C01', file='src/srctools/keyvalues.py',
+         old="""        self._serialise(file, indent, open_brace, close_brace, start_indent)""",
+         new="""        if len(indent) > 2 and isinstance(self._value, list):
+            self._value[:] = [c for i, c in enumerate(self._value) if i == 0 or c._real_name != self._value[i - 1]._real_name]
+        self._serialise(file, indent, open_brace, close_brace, start_indent)""",
+         note='serialise with a wide indent drops adjacent duplicate names from the tree it is given'),
 ]
